@@ -6,6 +6,12 @@ the expected answer of each with the running interpreter's own float arithmetic 
 move bit patterns in and out), sends the operation lines through `run_step` (which pipes them to
 the model) and diffs.  Floats are 16 hex digits, nan canonicalised to 7ff8000000000000.
 
+The `cents` family (ops `cents cdec cchain csum cmax cmax0 ccmp ccmpint cmulrate`) exercises the
+statements of `Proofs/F64Cents.lean`: operands are cent-valued doubles given by their integer
+cents, the model and CPython are compared as usual, and in addition, whenever a case lies inside
+the hypotheses of a lemma, the lemma's conclusion is checked on the REAL result (a failure is reported
+as a disagreement whose `model` field starts with `lemma`).
+
 Stand-alone use:  python f64_stream.py <driver-exe> [n] [seed]   (the exe must answer one line per
 line with `F64Drv.step`).
 """
@@ -429,6 +435,232 @@ def gen_summixed(rng):
     return 'summixed ' + ' '.join(toks), r, tag
 
 
+# ----------------------------------------------------------------------------- cents family
+from fractions import Fraction
+
+TWO52 = 1 << 52
+# found by construction: 61 copies of this amount, added left to right, end one cent off
+CHAIN_COUNTEREXAMPLE_CENTS = 9071999863748
+
+
+def cx(c):
+    """the double for c cents (same as c / 100)"""
+    return float(f'{c}e-2')
+
+
+def cents_of(x):
+    """Lean `centsOf`: the c with x == float(f'{c}e-2'), c = round_half_even(100 x) exactly"""
+    if not math.isfinite(x):
+        return None
+    k = round(Fraction(x) * 100)
+    return k if cx(k) == x else None
+
+
+def cents_str(x):
+    k = cents_of(x)
+    return 'none' if k is None else str(k)
+
+
+def g_cents_int(rng, bound=10 ** 13):
+    c = rng.random()
+    if c < 0.35:
+        v = rng.randrange(0, 10 ** rng.choice([2, 4, 6, 7, 8, 9]))
+    elif c < 0.6:
+        v = rng.randrange(0, bound + 1)
+    elif c < 0.7:
+        v = bound - rng.randrange(0, 3)
+    elif c < 0.8:
+        v = rng.choice([0, 0, 1, 2, 5, 50, 99, 100, 101, 12345, 250000_00, 10 ** 9, 10 ** 11])
+    else:
+        v = rng.randrange(0, 10 ** rng.randrange(1, 14))
+    v = min(v, bound)
+    return -v if rng.random() < 0.25 else v
+
+
+def same_cents(x, y):
+    """equal as cent-valued doubles: bit-equal, or both zeros"""
+    return f2h(x) == f2h(y) or (x == 0 and y == 0)
+
+
+def gen_cents(rng):
+    c = rng.random()
+    if c < 0.5:
+        k = g_cents_int(rng, 10 ** rng.choice([13, 15, 16, 17]))
+        x = cx(k)
+        if rng.random() < 0.2:
+            x = nextafter_n(x, rng.choice([-1, 1]))
+    elif c < 0.8:
+        x = round(g_value(rng)[0], 2)
+    else:
+        x = g_value(rng)[0]
+    k = cents_of(x)
+    viol = None
+    if k is not None and abs(k) < TWO52 and f2h(round(x, 2)) != f2h(x):
+        viol = f'lemma Cent.roundN2: round(x,2) != x for {k} cents'
+    return f'cents {f2h(x)}', cents_str(x), 'some' if k is not None else 'none', viol
+
+
+def gen_cdec(rng):
+    k = g_cents_int(rng, 10 ** rng.choice([13, 15, 18, 30]))
+    x = cx(k)
+    viol = None
+    if x != k / 100:
+        viol = 'float(f"{c}e-2") != c/100'
+    if abs(k) < TWO52 and cents_of(x) != k:
+        viol = f'lemma Cent.centsOf: cents_of(centD {k}) = {cents_of(x)}'
+    return f'cdec {k}', f2h(x), 'ok', viol
+
+
+def _chain_terms(rng):
+    c = rng.random()
+    if c < 0.04:
+        n = rng.randrange(55, 65)
+        return CHAIN_COUNTEREXAMPLE_CENTS, [(False, CHAIN_COUNTEREXAMPLE_CENTS)] * n
+    if c < 0.45:
+        n, B = rng.randrange(1, 21), 10 ** 13
+    elif c < 0.8:
+        n, B = rng.randrange(1, 65), 10 ** rng.choice([6, 9, 11, 12])
+    elif c < 0.9:
+        n, B = rng.randrange(1, 65), 10 ** 13
+    else:
+        n, B = rng.randrange(1, 8), 10 ** rng.choice([14, 15])
+    c0 = g_cents_int(rng, B)
+    if rng.random() < 0.3:
+        # same-sign large terms: the partial sums really grow
+        ts = [(False, B - rng.randrange(0, B // 10 + 1)) for _ in range(n)]
+    else:
+        ts = [(rng.random() < 0.4, g_cents_int(rng, B)) for _ in range(n)]
+    return c0, ts
+
+
+def gen_cchain(rng):
+    c0, ts = _chain_terms(rng)
+    y, exact = cx(c0), c0
+    for sub, c in ts:
+        if sub:
+            y, exact = y - cx(c), exact - c
+        else:
+            y, exact = y + cx(c), exact + c
+    r = round(y, 2)
+    B = max([abs(c0)] + [abs(c) for _, c in ts])
+    n = len(ts)
+    inrange = (n + 1) * (n + 1) * (B + 3) < TWO52
+    ok = same_cents(r, cx(exact))
+    viol = None
+    if inrange and not ok:
+        viol = f'lemma cent_chain: n={n} B={B} round(chain,2)={r!r} exact cents={exact}'
+    tag = ('in' if inrange else 'out') + (':ok' if ok else ':off-by-a-cent')
+    line = f'cchain {c0} ' + ' '.join(('-' if sub else '+') + str(c) for sub, c in ts)
+    return line, f'{f2h(r)} {f2h(cx(exact))} {cents_str(r)}', tag, viol
+
+
+def gen_csum(rng):
+    c0, ts = _chain_terms(rng)
+    cs = [c0] + [(-c if sub else c) for sub, c in ts]
+    r = round(sum(cx(c) for c in cs), 2)
+    exact = sum(cs)
+    B = max(abs(c) for c in cs)
+    n = len(cs) - 1
+    inrange = 9 * (n + 1) * (n + 1) * (B + 3) < TWO52
+    ok = same_cents(r, cx(exact))
+    viol = None
+    if inrange and not ok:
+        viol = f'lemma cent_pySum_partial: n={n} B={B} round(sum,2)={r!r} exact cents={exact}'
+    tag = ('in' if inrange else 'out') + (':ok' if ok else ':off-by-a-cent')
+    return 'csum ' + ' '.join(str(c) for c in cs), f'{f2h(r)} {f2h(cx(exact))} {cents_str(r)}', tag, viol
+
+
+def _cent_pair(rng):
+    a = g_cents_int(rng)
+    c = rng.random()
+    if c < 0.25:
+        b = a
+    elif c < 0.55:
+        b = a + rng.choice([-1, 1, 2, -2])
+    elif c < 0.65:
+        b = -a
+    else:
+        b = g_cents_int(rng)
+    return a, b
+
+
+def gen_cmax(rng):
+    a, b = _cent_pair(rng)
+    mx, mn = max(cx(a), cx(b)), min(cx(a), cx(b))
+    viol = None
+    if cents_of(mx) != max(a, b) or cents_of(mn) != min(a, b):
+        viol = f'lemma cent_pyMax/cent_pyMin: {a} {b}'
+    tag = 'eq' if a == b else 'adjacent' if abs(a - b) <= 2 else 'far'
+    return f'cmax {a} {b}', f'{f2h(mx)} {cents_str(mx)} {f2h(mn)} {cents_str(mn)}', tag, viol
+
+
+def gen_cmax0(rng):
+    a = g_cents_int(rng)
+    if rng.random() < 0.2:
+        a = rng.choice([0, 1, -1])
+    m1, m2 = max(0.0, cx(a)), max(cx(a), 0.0)
+    viol = None
+    if cents_of(m1) != max(0, a) or cents_of(m2) != max(a, 0):
+        viol = f'lemma cent_pyMax_zero: {a}'
+    return f'cmax0 {a}', f'{f2h(m1)} {cents_str(m1)} {f2h(m2)} {cents_str(m2)}', 'neg' if a < 0 else 'zero' if a == 0 else 'pos', viol
+
+
+def gen_ccmp(rng):
+    a, b = _cent_pair(rng)
+    x, y = cx(a), cx(b)
+    viol = None
+    if (x < y, x <= y, x == y) != (a < b, a <= b, a == b):
+        viol = f'lemma cent_lt/le/eq: {a} {b}'
+    tag = 'eq' if a == b else 'adjacent' if abs(a - b) <= 2 else 'far'
+    return f'ccmp {a} {b}', f'{_b(x < y)} {_b(x <= y)} {_b(x == y)}', tag, viol
+
+
+def gen_ccmpint(rng):
+    a = g_cents_int(rng)
+    c = rng.random()
+    if c < 0.5:
+        n = a // 100 + rng.choice([-1, 0, 0, 1])
+    elif c < 0.7:
+        n = rng.choice([0, 1, 100, 250000, 10 ** 6])
+    else:
+        n = g_cents_int(rng, 10 ** 11)
+    if rng.random() < 0.3:
+        a = 100 * n + rng.choice([-1, 0, 1])
+    x = cx(a)
+    viol = None
+    if (x < n, x <= n, x == n, x >= n, x > n) != (a < 100 * n, a <= 100 * n, a == 100 * n, a >= 100 * n, a > 100 * n):
+        viol = f'lemma cent_ltInt…: {a} {n}'
+    return (f'ccmpint {a} {n}', ' '.join(_b(v) for v in (x < n, x <= n, x == n, x >= n, x > n)),
+            'eq' if a == 100 * n else 'ne', viol)
+
+
+def gen_cmulrate(rng):
+    a = g_cents_int(rng)
+    c = rng.random()
+    if c < 0.6:
+        r = rng.choice(RATES)
+    elif c < 0.8:
+        r = rng.randrange(0, 10 ** 4) / 10 ** 4
+    elif c < 0.9:
+        r = rng.uniform(-1024, 1024)
+    else:
+        r = rng.choice([1.0, 0.5, 2.0, 100.0, 0.01, 1e-9, 1024.0, -1.0, 0.0, -0.0, 12.0, 1 / 12])
+    if rng.random() < 0.25:
+        # exact decimal ties: cents × rate ending in …5 in the third decimal
+        a = rng.randrange(0, 10 ** 7) * 100
+        r = rng.choice([0.0145, 0.062, 0.0475, 0.9235, 0.153, 0.0765, 0.005, 0.125])
+    y = round(cx(a) * r, 2)
+    k = cents_of(y)
+    viol = None
+    exact = Fraction(a) * Fraction(r)
+    if k is None:
+        viol = 'lemma cent_mul_rate_partial: result not cent-valued'
+    elif abs(k - exact) > Fraction(1, 2) + Fraction(abs(a) + 1, 10 ** 6):
+        viol = f'lemma cent_mul_rate_partial: |c - ca*r| too large ({k} vs {float(exact)})'
+    tag = 'exact-rounding' if k == round(exact) else 'other-side-of-a-tie'
+    return f'cmulrate {a} {f2h(r)}', f'{f2h(y)} {cents_str(y)}', tag, viol
+
+
 OPS = [
     ('add', op_bin('add'), 12), ('sub', op_bin('sub'), 10), ('mul', op_bin('mul'), 12), ('div', op_bin('div'), 8),
     ('max', op_bin('max'), 2), ('min', op_bin('min'), 2),
@@ -440,6 +672,9 @@ OPS = [
     ('r2', gen_r2, 12), ('round', gen_round, 6), ('fmt', gen_fmt, 6),
     ('cmpint', gen_cmpint, 4), ('ofint', gen_ofint, 3), ('dec', gen_dec, 6),
     ('sum', gen_sum, 5), ('sumfrom', gen_sumfrom, 3), ('summixed', gen_summixed, 3),
+    ('cents', gen_cents, 2), ('cdec', gen_cdec, 1), ('cchain', gen_cchain, 4), ('csum', gen_csum, 3),
+    ('cmax', gen_cmax, 1.5), ('cmax0', gen_cmax0, 1), ('ccmp', gen_ccmp, 1.5), ('ccmpint', gen_ccmpint, 1.5),
+    ('cmulrate', gen_cmulrate, 3),
 ]
 
 
@@ -459,7 +694,8 @@ def _valid_int(s):
 _ARITY = {'bits': 'h', 'add': 'hh', 'sub': 'hh', 'mul': 'hh', 'div': 'hh', 'neg': 'h', 'abs': 'h', 'lt': 'hh',
           'le': 'hh', 'eq': 'hh', 'max': 'hh', 'min': 'hh', 'isfinite': 'h', 'isnan': 'h', 'cmpint': 'hi',
           'ofint': 'i', 'dec': 'sni', 'r2': 'h', 'round': 'nh', 'rint': 'h', 'ceil': 'h', 'floor': 'h', 'trunc': 'h',
-          'fmt': 'nh', 'rat': 'h'}
+          'fmt': 'nh', 'rat': 'h', 'cents': 'h', 'cdec': 'i', 'cmax': 'ii', 'cmax0': 'i', 'ccmp': 'ii',
+          'ccmpint': 'ii', 'cmulrate': 'ih'}
 
 
 def expected_malformed(line):
@@ -493,6 +729,19 @@ def expected_malformed(line):
             if not (_valid_int(a[1:]) if a.startswith('i') else _valid_hex(a)):
                 return 'bad-arg'
         return None
+    if op == 'cchain':
+        if not args:
+            return 'bad-op'
+        if not _valid_int(args[0]):
+            return 'bad-arg'
+        for a in args[1:]:
+            if not (a[:1] in ('+', '-') and _valid_int(a[1:])):
+                return 'bad-arg'
+        return None
+    if op == 'csum':
+        if not args:
+            return 'bad-op'
+        return None if all(_valid_int(a) for a in args) else 'bad-arg'
     return 'bad-op'
 
 
@@ -500,7 +749,7 @@ def gen_malformed(rng):
     """corrupt a well-formed line; return (line, expected) with expected never None"""
     while True:
         name, gen, _ = rng.choice(OPS)
-        line, _, _ = gen(rng)
+        line = gen(rng)[0]
         toks = line.split(' ')
         c = rng.random()
         if c < 0.15:
@@ -537,6 +786,7 @@ def run(seed, n, run_step):
     weights = [o[2] for o in OPS]
     pick = random.Random(f'{seed}/f64/pick')
     lines, expected, kinds = [], [], []
+    lemma_failures = []
     distribution = {}
 
     def count(key):
@@ -545,7 +795,10 @@ def run(seed, n, run_step):
     for k in range(n):
         name = pick.choices(names, weights)[0]
         rng = random.Random(f'{seed}/f64/{k}')
-        line, exp, tag = gens[name](rng)
+        res = gens[name](rng)
+        line, exp, tag = res[:3]
+        if len(res) > 3 and res[3]:
+            lemma_failures.append({'op': line, 'model': str(res[3]), 'real': exp})
         lines.append(line)
         expected.append(exp)
         kinds.append(name)
@@ -568,7 +821,7 @@ def run(seed, n, run_step):
         if len(out) != len(lines[i:i + CH]):
             raise RuntimeError(f'model answered {len(out)} lines for {len(lines[i:i + CH])} operations')
         answers += out
-    disagreements = []
+    disagreements = list(lemma_failures)
     for line, exp, got in zip(lines, expected, answers):
         if exp != got:
             disagreements.append({'op': line, 'model': got, 'real': exp})
